@@ -40,7 +40,7 @@ ctor_total!(c16_prio2_new, Prio2::new(kani::any()));
 //@ harness: c16_sum64_new
 //@ prop: C16
 //@ tier: quick
-//@ cost: 7
+//@ cost: 6
 //@ funcs: flp::types::Sum<Field64>::new
 //@ bounds: max_measurement: every u64
 //@ asserts: total (no panic/overflow/shift overflow)
@@ -50,7 +50,7 @@ ctor_total!(c16_sum64_new, Sum::<Field64>::new(kani::any()));
 //@ harness: c16_sum128_new
 //@ prop: C16
 //@ tier: quick
-//@ cost: 12
+//@ cost: 15
 //@ funcs: flp::types::Sum<Field128>::new
 //@ bounds: max_measurement: every u128
 //@ asserts: total
@@ -60,7 +60,7 @@ ctor_total!(c16_sum128_new, Sum::<Field128>::new(kani::any()));
 //@ harness: c16_average128_new
 //@ prop: C16
 //@ tier: quick
-//@ cost: 14
+//@ cost: 16
 //@ funcs: flp::types::Average<Field128>::new
 //@ bounds: max_measurement: every u128
 //@ asserts: total
@@ -80,7 +80,7 @@ ctor_total!(c16_histogram128_new, Histogram::<Field128, PS128>::new(kani::any(),
 //@ harness: c16_sumvec128_new
 //@ prop: C16
 //@ tier: quick
-//@ cost: 4
+//@ cost: 6
 //@ funcs: flp::types::SumVec<Field128,ParallelSum>::new
 //@ bounds: max_measurement: every u128; len, chunk_length: every usize
 //@ asserts: total
@@ -90,7 +90,7 @@ ctor_total!(c16_sumvec128_new, SumVec::<Field128, PS128>::new(kani::any(), kani:
 //@ harness: c16_sumvec64_new
 //@ prop: C16
 //@ tier: quick
-//@ cost: 4
+//@ cost: 6
 //@ funcs: flp::types::SumVec<Field64,ParallelSum>::new
 //@ bounds: max_measurement: every u64; len, chunk_length: every usize
 //@ asserts: total
@@ -120,7 +120,7 @@ ctor_total!(c16_multihot64_new, MultihotCountVec::<Field64, PS64>::new(kani::any
 //@ harness: c16_l1boundsum128_new
 //@ prop: C16
 //@ tier: quick
-//@ cost: 5
+//@ cost: 6
 //@ funcs: flp::types::L1BoundSum<Field128,ParallelSum>::new
 //@ bounds: max_value: every u128; measurement_len, chunk_length: every usize
 //@ asserts: total
@@ -166,7 +166,7 @@ pub fn c16_prio3_new_count() {
 //@ harness: c16_prio3_new_generic
 //@ prop: C16
 //@ tier: quick
-//@ cost: 2
+//@ cost: 3
 //@ funcs: vdaf::prio3::Prio3::new
 //@ bounds: num_aggregators, num_proofs: every u8; algorithm_id: every u32
 //@ asserts: total; Err if num_aggregators is 0 or > 254 or num_proofs = 0; Ok for 2..=254 with num_proofs >= 1
@@ -191,7 +191,7 @@ pub fn c16_prio3_new_generic() {
 //@ harness: c16_prio3_new_sum
 //@ prop: C16
 //@ tier: quick
-//@ cost: 9
+//@ cost: 11
 //@ funcs: vdaf::prio3::Prio3::new_sum
 //@ bounds: num_aggregators: every u8; max_measurement: every u64
 //@ asserts: total
@@ -201,7 +201,7 @@ ctor_total!(c16_prio3_new_sum, Prio3::new_sum(kani::any(), kani::any()));
 //@ harness: c16_prio3_new_average
 //@ prop: C16
 //@ tier: quick
-//@ cost: 19
+//@ cost: 25
 //@ funcs: vdaf::prio3::Prio3::new_average
 //@ bounds: num_aggregators: every u8; max_measurement: every u128
 //@ asserts: total
@@ -211,7 +211,7 @@ ctor_total!(c16_prio3_new_average, Prio3::new_average(kani::any(), kani::any()))
 //@ harness: c16_prio3_new_sum_vec
 //@ prop: C16
 //@ tier: quick
-//@ cost: 8
+//@ cost: 10
 //@ funcs: vdaf::prio3::Prio3::new_sum_vec
 //@ bounds: num_aggregators: every u8; max_measurement: every u128; len, chunk_length: every usize
 //@ asserts: total
@@ -221,7 +221,7 @@ ctor_total!(c16_prio3_new_sum_vec, Prio3::new_sum_vec(kani::any(), kani::any(), 
 //@ harness: c16_prio3_new_histogram
 //@ prop: C16
 //@ tier: quick
-//@ cost: 4
+//@ cost: 5
 //@ funcs: vdaf::prio3::Prio3::new_histogram
 //@ bounds: num_aggregators: every u8; length, chunk_length: every usize
 //@ asserts: total
@@ -231,7 +231,7 @@ ctor_total!(c16_prio3_new_histogram, Prio3::new_histogram(kani::any(), kani::any
 //@ harness: c16_prio3_new_multihot
 //@ prop: C16
 //@ tier: quick
-//@ cost: 6
+//@ cost: 8
 //@ funcs: vdaf::prio3::Prio3::new_multihot_count_vec
 //@ bounds: num_aggregators: every u8; num_buckets, max_weight, chunk_length: every usize
 //@ asserts: total
@@ -241,7 +241,7 @@ ctor_total!(c16_prio3_new_multihot, Prio3::new_multihot_count_vec(kani::any(), k
 //@ harness: c16_prio3_new_l1boundsum
 //@ prop: C16
 //@ tier: quick
-//@ cost: 10
+//@ cost: 11
 //@ funcs: vdaf::prio3::Prio3::new_l1_bound_sum
 //@ bounds: num_aggregators: every u8; max_value: every u128; len, chunk_length: every usize
 //@ asserts: total
@@ -269,7 +269,7 @@ macro_rules! lens_total {
 //@ harness: c16_lens_sumvec
 //@ prop: C16
 //@ tier: quick
-//@ cost: 14
+//@ cost: 15
 //@ funcs: SumVec::new; Flp::{input_len,proof_len,verifier_len,joint_rand_len,prove_rand_len,eval_output_len}; Type::output_len
 //@ bounds: max_measurement: every u128; len, chunk_length <= 2^24 (memory budget of the property's quantifier)
 //@ asserts: every instance the constructor accepts has overflow-free length accessors
@@ -287,7 +287,7 @@ pub fn c16_lens_sumvec() {
 //@ harness: c16_lens_histogram
 //@ prop: C16
 //@ tier: quick
-//@ cost: 4
+//@ cost: 5
 //@ funcs: Histogram::new; Flp length accessors
 //@ bounds: length, chunk_length <= 2^24
 //@ asserts: every accepted instance has overflow-free length accessors
@@ -323,7 +323,7 @@ pub fn c16_lens_multihot() {
 //@ harness: c16_lens_l1boundsum
 //@ prop: C16
 //@ tier: quick
-//@ cost: 13
+//@ cost: 14
 //@ funcs: L1BoundSum::new; Flp length accessors
 //@ bounds: measurement_len, chunk_length <= 2^24; max_value: every u128
 //@ asserts: every accepted instance has overflow-free length accessors
@@ -341,7 +341,7 @@ pub fn c16_lens_l1boundsum() {
 //@ harness: c16_lens_sum
 //@ prop: C16
 //@ tier: quick
-//@ cost: 23
+//@ cost: 26
 //@ funcs: Sum::new; Flp length accessors
 //@ bounds: max_measurement: every u128
 //@ asserts: every accepted instance has overflow-free length accessors
@@ -380,7 +380,7 @@ pub fn c16_histogram_encode_oob() {
 //@ harness: c16_sum_encode_range
 //@ prop: C16
 //@ tier: quick
-//@ cost: 52
+//@ cost: 55
 //@ funcs: Sum::encode_measurement, encode_range_checked_int, FieldElementWithInteger::encode_as_bitvector
 //@ bounds: Sum<Field64>(max in {1,2,3,5,255,256}); measurement: every u64
 //@ asserts: Ok iff measurement <= max_measurement; encoded length = bits
@@ -447,7 +447,7 @@ sumvec_encode!(c16_sumvec_encode_len1, 1);
 //@ harness: c16_sumvec_encode_len2
 //@ prop: C16
 //@ tier: quick
-//@ cost: 38
+//@ cost: 52
 //@ funcs: SumVec::encode_measurement, encode_range_checked_int
 //@ bounds: SumVec<Field64>(max 2, len 2, chunk 2); measurement of length 2, entries every u64
 //@ asserts: Ok iff every entry <= 2; output length = input_len; never panics
@@ -457,7 +457,7 @@ sumvec_encode!(c16_sumvec_encode_len2, 2);
 //@ harness: c16_sumvec_encode_len3
 //@ prop: C16
 //@ tier: quick
-//@ cost: 4
+//@ cost: 3
 //@ funcs: SumVec::encode_measurement
 //@ bounds: SumVec<Field64>(max 2, len 2, chunk 2); measurement of length 3, entries every u64
 //@ asserts: Err (wrong length); never panics
@@ -490,7 +490,7 @@ macro_rules! multihot_encode {
 //@ harness: c16_multihot_encode2
 //@ prop: C16
 //@ tier: quick
-//@ cost: 3
+//@ cost: 4
 //@ funcs: MultihotCountVec::encode_measurement
 //@ bounds: MultihotCountVec<Field64>(buckets 3, max_weight 2, chunk 2); every bool vector of length 2
 //@ asserts: Err (wrong length); never panics
@@ -500,7 +500,7 @@ multihot_encode!(c16_multihot_encode2, 2);
 //@ harness: c16_multihot_encode3
 //@ prop: C16
 //@ tier: quick
-//@ cost: 27
+//@ cost: 21
 //@ funcs: MultihotCountVec::encode_measurement, encode_range_checked_int
 //@ bounds: MultihotCountVec<Field64>(buckets 3, max_weight 2, chunk 2); every bool vector of length 3
 //@ asserts: Ok iff weight <= 2; output length = input_len; never panics
@@ -510,7 +510,7 @@ multihot_encode!(c16_multihot_encode3, 3);
 //@ harness: c16_multihot_encode4
 //@ prop: C16
 //@ tier: quick
-//@ cost: 4
+//@ cost: 6
 //@ funcs: MultihotCountVec::encode_measurement
 //@ bounds: MultihotCountVec<Field64>(buckets 3, max_weight 2, chunk 2); every bool vector of length 4
 //@ asserts: Err (wrong length); never panics
@@ -543,7 +543,7 @@ macro_rules! l1_encode {
 //@ harness: c16_l1boundsum_encode1
 //@ prop: C16
 //@ tier: quick
-//@ cost: 4
+//@ cost: 3
 //@ funcs: L1BoundSum::encode_measurement
 //@ bounds: L1BoundSum<Field64>(max_value 3, len 2, chunk 2); measurement of length 1, entries every u64
 //@ asserts: Err (wrong length); never panics
@@ -553,7 +553,7 @@ l1_encode!(c16_l1boundsum_encode1, 1);
 //@ harness: c16_l1boundsum_encode2
 //@ prop: C16
 //@ tier: quick
-//@ cost: 87
+//@ cost: 105
 //@ funcs: L1BoundSum::encode_measurement, encode_range_checked_int
 //@ bounds: L1BoundSum<Field64>(max_value 3, len 2, chunk 2); measurement of length 2, entries every u64
 //@ asserts: Ok iff entries <= 3 and their sum <= 3; never panics (incl. overflow of the norm accumulator)
@@ -563,7 +563,7 @@ l1_encode!(c16_l1boundsum_encode2, 2);
 //@ harness: c16_l1boundsum_encode3
 //@ prop: C16
 //@ tier: quick
-//@ cost: 4
+//@ cost: 5
 //@ funcs: L1BoundSum::encode_measurement
 //@ bounds: L1BoundSum<Field64>(max_value 3, len 2, chunk 2); measurement of length 3, entries every u64
 //@ asserts: Err (wrong length); never panics
